@@ -153,4 +153,69 @@ theorem render_levels_cover (t : Tree) (ht : typedT t = true) (hr : isNormal t.o
   rw [← occs_map_obj t]
   exact this (occs t)
 
+/-! ### type-depth-inverse -/
+
+theorem clause_type_depth_inverse : topClause "type-depth-inverse" = fun d _ => d.typeDepths.length == tMAX &&
+    (List.range tMAX).all (fun t =>
+      let td := (d.typeDepths[t]?).getD 0
+      match specialDepth t with
+      | some sd => td == sd
+      | none =>
+        let ls := d.levels.filter (fun l => decide (0 ≤ l.depth) && l.type == (t : Int))
+        match ls with
+        | [] => td == -1
+        | [l] => td == l.depth
+        | _ => td == -2) := by
+  simp only [topClause, topClauses, List.find?, String.reduceBEq]
+  rfl
+
+def mkLevel (x : Nat × (Nat × List Nat)) : Level := ⟨(x.1 : Int), (x.2.1 : Int), x.2.2.map (fun (i : Nat) => (i : Int))⟩
+
+theorem normalPart_eq (t : Tree) : normalPart t = ((List.range (normalLevels t).length).zip (normalLevels t)).map mkLevel := rfl
+
+theorem special_filter_nil (t : Tree) (ty : Nat) :
+    (specialPart t).filter (fun l => decide (0 ≤ l.depth) && l.type == (ty : Int)) = [] := by
+  rw [List.filter_eq_nil_iff]
+  intro l hl
+  unfold specialPart at hl
+  obtain ⟨ty', hty', rfl⟩ := List.mem_map.1 hl
+  simp only [specialTypes, List.mem_cons, List.mem_nil_iff, or_false] at hty'
+  rcases hty' with rfl | rfl | rfl | rfl | rfl | rfl <;> simp [specialDepth, tNUMA, tBRIDGE, tPCI, tOSDEV, tMISC, tMEMCACHE]
+
+/-- **type-depth-inverse** for the rendering of every tree: the type → depth table is the inverse of the level list (−1 for an
+    absent normal type, −2 for a type with several levels, the virtual depth for the special types) -/
+theorem render_type_depth_inverse (t : Tree) (h : Hdr) (ex : RObj → Extra) :
+    topClause "type-depth-inverse" (render t h ex) (mkAux (render t h ex)) = true := by
+  rw [clause_type_depth_inverse]
+  simp only [Bool.and_eq_true, beq_iff_eq, List.all_eq_true, List.mem_range]
+  refine ⟨by show ((List.range tMAX).map (typeDepthOf (normalLevels t))).length = tMAX; simp, ?_⟩
+  intro ty hty
+  have htd : ((render t h ex).typeDepths[ty]?).getD 0 = typeDepthOf (normalLevels t) ty := by
+    show (((List.range tMAX).map (typeDepthOf (normalLevels t)))[ty]?).getD 0 = _
+    rw [List.getElem?_map, List.getElem?_range hty]
+    rfl
+  simp only [htd]
+  unfold typeDepthOf
+  cases hs : specialDepth ty with
+  | some sd => simp
+  | none =>
+    simp only []
+    rw [render_levels, List.filter_append, special_filter_nil, List.append_nil, normalPart_eq, List.filter_map]
+    have hP : ((fun (l : Level) => decide (0 ≤ l.depth) && l.type == (ty : Int)) ∘ mkLevel) =
+        (fun (x : Nat × (Nat × List Nat)) => x.2.1 == ty) := by
+      funext x
+      have cast : ∀ a b : Nat, ((a : Int) == (b : Int)) = (a == b) := by
+        intro a b
+        rw [Bool.eq_iff_iff, beq_iff_eq, beq_iff_eq]
+        omega
+      simp [mkLevel, cast]
+    rw [hP]
+    generalize ((List.range (normalLevels t).length).zip (normalLevels t)).filter (fun x => x.2.1 == ty) = L
+    cases L with
+    | nil => simp
+    | cons a rest =>
+      cases rest with
+      | nil => obtain ⟨k, l⟩ := a; simp [mkLevel]
+      | cons b r2 => obtain ⟨k, l⟩ := a; simp
+
 end Hw.Topo.Restrict
